@@ -15,6 +15,9 @@ VARIABLES mcfg, reader, pc, held, ridx, lines, table
 ovars == <<mcfg, reader, pc, held, ridx, lines, table>>
 N == Len(mcfg.runs)
 Workers == 1..mcfg.nw
+\* the id printed for record i (0-based ordinal). Ids need not be unique: a file may hold two records with one name, and the
+\* outputs then list both (a configuration without an ids field names every record by its ordinal)
+IdOf(i) == IF "ids" \in DOMAIN mcfg THEN mcfg.ids[i + 1] ELSE i
 
 MInitCfg(c) == /\ mcfg = c /\ reader = 0
                /\ pc = [w \in 1..c.nw |-> "take"] /\ held = [w \in 1..c.nw |-> 0] /\ ridx = [w \in 1..c.nw |-> 0]
@@ -44,7 +47,7 @@ PushRun(w) == /\ mcfg.mode = "m2s" /\ pc[w] = "emit"
               /\ LET rs == mcfg.runs[held[w] + 1] IN
                  IF ridx[w] < Len(rs)
                  THEN LET r == rs[ridx[w] + 1] IN
-                      /\ table' = Push(table, r[1], <<held[w], r[2], r[3]>>)
+                      /\ table' = Push(table, r[1], <<IdOf(held[w]), r[2], r[3]>>)
                       /\ ridx' = [ridx EXCEPT ![w] = @ + 1]
                       /\ UNCHANGED pc
                  ELSE /\ pc' = [pc EXCEPT ![w] = "take"] /\ UNCHANGED <<table, ridx>>
@@ -53,7 +56,7 @@ PushRun(w) == /\ mcfg.mode = "m2s" /\ pc[w] = "emit"
 PushRec(w) == /\ mcfg.mode = "m2s" /\ pc[w] = "emit"
               /\ LET rs == mcfg.runs[held[w] + 1]
                      f[i \in 0..Len(rs)] == IF i = 0 THEN table
-                                            ELSE Push(f[i-1], rs[i][1], <<held[w], rs[i][2], rs[i][3]>>)
+                                            ELSE Push(f[i-1], rs[i][1], <<IdOf(held[w]), rs[i][2], rs[i][3]>>)
                  IN table' = f[Len(rs)]
               /\ pc' = [pc EXCEPT ![w] = "take"]
               /\ UNCHANGED <<mcfg, reader, held, ridx, lines>>
@@ -68,7 +71,8 @@ CountIn(s, x) == Cardinality({i \in 1..Len(s) : s[i] = x})
 OneLinePerRecord == Done /\ mcfg.mode = "s2m" =>
                       /\ Len(lines) = N
                       /\ \A i \in 0..(N - 1) : CountIn(lines, i) = 1
-\* m2s is the exact inversion of s2m (lists as multisets): key v lists (i, s, e) exactly for the runs <<v, s, e>> of record i
+\* m2s is the exact inversion of s2m (lists as multisets): key v lists (id of i, s, e) exactly for the runs <<v, s, e>> of record i,
+\* as often as they occur (two records may carry the same id)
 RunIdx == UNION {{<<i, j>> : j \in 1..Len(mcfg.runs[i + 1])} : i \in 0..(N - 1)}     \* (record, run number)
 Expected(v) == {p \in RunIdx : mcfg.runs[p[1] + 1][p[2]][1] = v}
 Inversion == Done /\ mcfg.mode = "m2s" =>
@@ -77,7 +81,9 @@ Inversion == Done /\ mcfg.mode = "m2s" =>
                     /\ Len(table[v]) = Cardinality(Expected(v))
                     /\ \A p \in Expected(v) :
                          LET r == mcfg.runs[p[1] + 1][p[2]]
-                         IN CountIn(table[v], <<p[1], r[2], r[3]>>) =
-                            Cardinality({q \in Expected(v) : mcfg.runs[q[1] + 1][q[2]] = r /\ q[1] = p[1]})
+                         IN CountIn(table[v], <<IdOf(p[1]), r[2], r[3]>>) =
+                            Cardinality({q \in Expected(v) : /\ mcfg.runs[q[1] + 1][q[2]][2] = r[2]
+                                                              /\ mcfg.runs[q[1] + 1][q[2]][3] = r[3]
+                                                              /\ IdOf(q[1]) = IdOf(p[1])})
 Terminates == <>Done
 =============================================================================
